@@ -227,3 +227,35 @@ def through_properties(repo: loader.Repo, fn: loader.Func, e: ast.AST, depth: in
             return node
     out = T().visit(copy.deepcopy(e))
     return out if canon(out) == canon(e) else through_properties(repo, fn, out, depth - 1)
+
+
+def alpha(e: ast.AST) -> ast.AST:
+    """comprehension-bound names renamed to _0, _1, ... in binding order (alpha-equivalence for shape comparison)"""
+    e = copy.deepcopy(e)
+    ren: Dict[str, str] = {}
+    for n in ast.walk(e):
+        if isinstance(n, ast.comprehension):
+            for x in ast.walk(n.target):
+                if isinstance(x, ast.Name) and x.id not in ren:
+                    ren[x.id] = f"_{len(ren)}"
+    for n in ast.walk(e):
+        if isinstance(n, ast.Name) and n.id in ren:
+            n.id = ren[n.id]
+    return e
+
+
+def split_arg(e: ast.AST, builtins=("format", "isinstance", "str", "int", "Decimal", "float", "repr", "dict", "list", "tuple", "sorted")):
+    """(variable, transform) of an argument expression: ``f(x)`` -> ("x", "f($)"); a plain name or dotted name -> (name, "$");
+    (None, text) when the expression has no single free variable."""
+    d = A.dotted(e)
+    if d is not None:
+        return d, "$"
+    a = alpha(e)
+    free = sorted({n.id for n in ast.walk(a) if isinstance(n, ast.Name) and not (n.id.startswith("_") and n.id[1:].isdigit()) and n.id not in builtins})
+    if len(free) != 1:
+        return None, canon(a)
+    var = free[0]
+    for n in ast.walk(a):
+        if isinstance(n, ast.Name) and n.id == var:
+            n.id = "$"
+    return var, canon(a)
